@@ -149,6 +149,25 @@ func genNesting() byteGen {
 	}}
 }
 
+// genCutShort: nesting constructs opened d times and then cut short - nothing after the last opener, or an operand and a dangling
+// operator - for every d next to a round number or a power of two (a nesting limit, a depth counter or a token buffer is at its
+// edge exactly when the expression ends there)
+func genCutShort() byteGen {
+	var ds []int
+	for _, c := range []int{8, 16, 32, 64, 100, 128, 200, 250, 256, 500, 512, 1000, 1024, 2000, 2048, 4096, 5000, 8192, 10000} {
+		ds = append(ds, c-2, c-1, c, c+1, c+2)
+	}
+	opens := []string{"(", "[", "!", "{a:", "[?", "abs(", "a.", "a||", "a[?", "not_null(a,", "&", "(!", "[[", "a|", "a==", "f(&", "a.[", "a.{k:", "*.", "@.", "a[*].", "a[", "-", "`", "'"}
+	tails := []string{"", "a", "a ||", "a.", "a[", "a)", "]", "`1`", " "}
+	return byteGen{"nestings-cut-short", len(ds) * len(opens) * len(tails), func(i int) string {
+		d, op, tl := ds[i/(len(opens)*len(tails))], opens[i/len(tails)%len(opens)], tails[i%len(tails)]
+		if d*len(op) > 40000 {
+			d = 40000 / len(op)
+		}
+		return strings.Repeat(op, d) + tl
+	}}
+}
+
 var (
 	corpusOnce sync.Once
 	corpus     []string
